@@ -59,10 +59,11 @@ def embed(U, qubits, n):
     return F
 
 
-def gate_matrix(name, float_args=()):
+def gate_matrix(name, float_args=(), sigs=None):
     """The small matrix of a native gate at its numeric arguments, or None when the gate has no
-    action on the state (idle gates, gates without a unitary, prepare/measure)."""
-    kinds, fn, busy = gates.SIGS[name]
+    action on the state (idle gates, gates without a unitary, prepare/measure).
+    `sigs` is an alternative signature table in the format of gates.SIGS (default: gates.SIGS)."""
+    kinds, fn, busy = (gates.SIGS if sigs is None else sigs)[name]
     nf = sum(1 for k in kinds if k != "q")
     if len(float_args) != nf:
         raise ValueError("%s takes %d classical argument(s), got %r" % (name, nf, float_args))
@@ -72,18 +73,22 @@ def gate_matrix(name, float_args=()):
 
 
 _FULL = {}
+_KEEP = []  # alternative tables whose id() is part of a cache key are kept alive
 
 
-def full_matrix(name, qubit_tuple, float_args, n):
-    """embed(gate_matrix(...)) with a cache (the alphabets are small); None = no action."""
-    key = (name, tuple(qubit_tuple), tuple(float_args), n)
+def full_matrix(name, qubit_tuple, float_args, n, sigs=None):
+    """embed(gate_matrix(...)) with a cache (the alphabets are small); None = no action.
+    The cache is per signature table (a table object must stay alive and unchanged)."""
+    key = (name, tuple(qubit_tuple), tuple(float_args), n, None if sigs is None else id(sigs))
     if key not in _FULL:
-        kinds = gates.SIGS[name][0]
+        kinds = (gates.SIGS if sigs is None else sigs)[name][0]
         nq = sum(1 for k in kinds if k == "q")
         if len(key[1]) != nq:
             raise ValueError("%s takes %d qubit argument(s), got %r" % (name, nq, key[1]))
-        U = gate_matrix(name, key[2])
+        U = gate_matrix(name, key[2], sigs)
         _FULL[key] = None if U is None else embed(U, key[1], n)
+        if sigs is not None and not any(k is sigs for k in _KEEP):
+            _KEEP.append(sigs)
     return _FULL[key]
 
 
@@ -93,22 +98,22 @@ def zero_state(n):
     return v
 
 
-def apply(state, name, qubit_tuple, float_args, n):
+def apply(state, name, qubit_tuple, float_args, n, sigs=None):
     """State after one gate; gates without action return an equal copy."""
     state = np.asarray(state, dtype=complex)
     if state.shape != (2 ** n,):
         raise ValueError("state of shape %r for %d qubits" % (state.shape, n))
-    F = full_matrix(name, qubit_tuple, float_args, n)
+    F = full_matrix(name, qubit_tuple, float_args, n, sigs)
     if F is None:
         return state.copy()
     return F @ state
 
 
-def run_sequence(n, seq, state=None):
+def run_sequence(n, seq, state=None, sigs=None):
     """Apply [(name, qubits, floats), ...] in order, starting from e_0."""
     v = zero_state(n) if state is None else np.asarray(state, dtype=complex)
     for name, qubits, floats in seq:
-        v = apply(v, name, qubits, floats, n)
+        v = apply(v, name, qubits, floats, n, sigs)
     return v
 
 
